@@ -701,13 +701,23 @@ def run(ctx):
         return sup, state
 
     reqs, impl = [], []
-    for _ in range(400 if quick else 5000):
+    for it_ in range(400 if quick else 5000):
         n = rng.choice([4, 5, 6, 7, 8, 9, 10, 11])
         gk, A = structured_graph(rng, n)
         if rng.random() < 0.5:
             gk, A = "random", rand_graph(rng, n, rng.choice([0.3, 0.5]))
+        big = it_ < (2 if quick else 8)
+        if big:
+            # more than 127 cross links: counts (`cross_A.sum()` of an int8 matrix, `number_cross_links`,
+            # `NODE(swaps * number_cross_links)`) beyond the range of the ADJ element type
+            n = 26
+            gk, A = "dense-26", rand_graph(rng, n, 0.93)
         ctx.count(f"cross:graph={gk}")
         pk, n1, n2 = partition(n)
+        if big:
+            nodes_ = list(range(n))
+            rng.shuffle(nodes_)
+            pk, n1, n2 = "cover-13+13", nodes_[:13], nodes_[13:]
         m1, m2 = len(n1), len(n2)
         A0 = A.astype(ADJ)
         nodes1, nodes2 = np.array(n1, dtype=NODE), np.array(n2, dtype=NODE)
